@@ -55,6 +55,17 @@ Proof. vm_compute. reflexivity. Qed.
 
 (* a ComboRoute kept in a variable registers where its method is CALLED: a method added after the group that
    made the value has closed lands outside that group (no group path, no group handlers) *)
+Theorem C11_held_combo_registers_where_called : forall fs pp ph id m hs path common added,
+  find_combo id (f_cs fs) = Some (path, common, added) -> existsb (str_eqb m) added = false -> str_eqb m m_get = false ->
+  flatten_stmt fs pp ph (SComboUse id m hs) =
+    Some (add_combo id (path, common, m :: added) fs, [reg_at fs pp ph m path (common ++ hs) false]).
+Proof. intros fs pp ph id m hs path common added F A G. cbn [flatten_stmt]. rewrite F, A, G. reflexivity. Qed.
+(* ... and a second call for the same method is refused, in whatever scope it is made *)
+Theorem C11_held_combo_refuses_same_method : forall fs pp ph id m hs path common added,
+  find_combo id (f_cs fs) = Some (path, common, added) -> existsb (str_eqb m) added = true ->
+  flatten_stmt fs pp ph (SComboUse id m hs) = None.
+Proof. intros fs pp ph id m hs path common added F A. cbn [flatten_stmt]. rewrite F, A. reflexivity. Qed.
+
 Example C11_example_combo_across_scopes :
   exec false [SGroup [47;103]%N [1] [SComboNew 7 [47;99]%N [2]; SComboUse 7 m_get [3]]; SComboUse 7 [80;85;84]%N [4];
               SGroup [47;104]%N [5] [SComboUse 7 [80;79;83;84]%N [6]]]
